@@ -387,3 +387,22 @@ var desWeak = [][8]byte{
 	{0x01, 0xE0, 0x01, 0xE0, 0x01, 0xF1, 0x01, 0xF1}, {0xE0, 0x01, 0xE0, 0x01, 0xF1, 0x01, 0xF1, 0x01}, {0x1F, 0xFE, 0x1F, 0xFE, 0x0E, 0xFE, 0x0E, 0xFE}, {0xFE, 0x1F, 0xFE, 0x1F, 0xFE, 0x0E, 0xFE, 0x0E},
 	{0x01, 0x1F, 0x01, 0x1F, 0x01, 0x0E, 0x01, 0x0E}, {0x1F, 0x01, 0x1F, 0x01, 0x0E, 0x01, 0x0E, 0x01}, {0xE0, 0xFE, 0xE0, 0xFE, 0xF1, 0xFE, 0xF1, 0xFE}, {0xFE, 0xE0, 0xFE, 0xE0, 0xFE, 0xF1, 0xFE, 0xF1},
 }
+
+// OnesAdd is ones' complement (end-around carry) addition of two equal-length big-endian numbers.
+func OnesAdd(a, b []byte) []byte {
+	out := make([]byte, len(a))
+	carry := 0
+	for pass := 0; pass < 2; pass++ {
+		for i := len(a) - 1; i >= 0; i-- {
+			s := carry
+			if pass == 0 {
+				s += int(a[i]) + int(b[i])
+			} else {
+				s += int(out[i])
+			}
+			out[i] = byte(s)
+			carry = s >> 8
+		}
+	}
+	return out
+}
